@@ -3,14 +3,15 @@
 Loop-bound rules are (regex over "function @ file:line", bound); first match wins; loops that
 match no rule get the harness's default `unwind`.  Unwinding assertions are always on, so a bound
 that is too small fails the run (it never silently truncates it)."""
+import os
 import re
 
 # loops of the harness crate itself have concrete trip counts (<= MAXREC = 28)
-HARNESS_LOOPS = (r' @ src/', 30)
+HARNESS_LOOPS = (r" @ src/", 46)
 
 
-def queue_rules(retry=3, streams=2, ring=3):
-    return [
+def queue_rules(retry=3, streams=2, ring=3, extra=None):
+    return (extra or []) + [
         (r'try_send_multi', retry),
         (r'MultiQueue.*::try_recv', retry),
         (r'ReadCursor::get_max_diff', retry),
@@ -24,10 +25,90 @@ def queue_rules(retry=3, streams=2, ring=3):
 
 DEFAULT = dict(unwind=4, rules=queue_rules(), mem_gb=16, timeout=900)
 
+ASSUMPTIONS = [
+    "sequential consistency: the cfg(multiqueue2_verif) shim atomics ignore Ordering arguments and fences are no-ops",
+    "schedule class S(d,b) of DESIGN.md section 4: suspended operations resume in LIFO order; at most b operations start at preemption points",
+    "MemoryManager::{get_token,remove_token,update_token,free} and ToFree::delete replaced by never-reclaiming ledger stubs in whole-queue harnesses (kani -Z stubbing); native replay runs the real ones",
+    "futures 0.1 replaced by the environment stub /verif/stubs/futures01 (task layer = harness executor)",
+    "std::sync::Mutex / parking_lot Mutex+Condvar replaced by single-thread-of-control shims",
+    "loop bounds as listed per harness; unwinding assertions on (a bound that is too small fails the run)",
+    "Kani/CBMC soundness; cbmc run with --max-field-sensitivity-array-size 2048 and Kani's default flag set",
+]
+
+# name -> dict(mod=<rust module>, props=[...], primary=<id>, tier='quick'|'thorough', what=..., bounds=..., + config overrides)
 HARNESSES = {}
 
+E2_ONLY = set()
 
-def config_for(name):
+
+def H(name, mod, primary, props, tier, what, bounds="", **cfg):
+    d = dict(mod=mod, primary=primary, props=props, tier=tier, what=what, bounds=bounds)
+    d.update(cfg)
+    HARNESSES[name] = d
+
+
+def full_path(name):
+    h = HARNESSES.get(name)
+    return "%s::%s" % (h["mod"], name) if h else name
+
+
+def primary_of(name):
+    return HARNESSES[name]["primary"]
+
+
+def props_of(name):
+    return HARNESSES[name]["props"]
+
+
+def select(prop, tier):
+    """quick: harnesses whose primary property is `prop` and that are tagged quick.
+    thorough: every harness that serves `prop` (primary or not), both tags."""
+    out = []
+    for n, h in HARNESSES.items():
+        if tier == "quick":
+            if h["primary"] == prop and h["tier"] == "quick":
+                out.append(n)
+        else:
+            if prop in h["props"]:
+                out.append(n)
+    return out
+
+
+def config_for(name, tier="quick"):
     cfg = dict(DEFAULT)
-    cfg.update(HARNESSES.get(name, {}))
+    h = HARNESSES.get(name, {})
+    for k in ("unwind", "rules", "mem_gb", "timeout", "fp_restrict", "remove_bodies", "cbmc_extra"):
+        if k in h:
+            cfg[k] = h[k]
+    if tier == "thorough":
+        cfg["timeout"] = max(cfg["timeout"], h.get("timeout_thorough", 3600))
     return cfg
+
+
+def default_jobs(tier):
+    n = os.cpu_count() or 4
+    return max(1, min(8, n // 2))
+
+
+def needs_native_confirmation(name, desc):
+    """Memory-safety verdicts of CBMC's pointer checks (use after free, double free, out of bounds)
+    are not observable in a native run; for harnesses whose oracle they are (C16) they are reported
+    without native confirmation."""
+    h = HARNESSES.get(name, {})
+    if h.get("builtin_oracle") and not re.match(r"^C\d\d", desc):
+        return False
+    return True
+
+
+# ---------------------------------------------------------------------------------------------
+# harness table
+
+H("h_s1_mpmc_n2_o2_111", "scen_basic", "C01", ["C01", "C02", "C03", "C06"], "quick",
+  "mpmc, multi-writer: consumer try_recv preempted at every shared access by two producers' try_send",
+  "N=2, 1 op per actor, depth 1, budget 2")
+H("h_s1_mpmc_n2_o0_111", "scen_basic", "C01", ["C01", "C02", "C03", "C06"], "thorough",
+  "mpmc, multi-writer: producer try_send preempted at every shared access by the other producer's try_send and the consumer's try_recv",
+  "N=2, 1 op per actor, depth 1, budget 2")
+H("h_s1_mpmc_n2_o0_111_b1", "scen_basic", "C01", ["C01", "C02", "C03", "C06"], "quick",
+  "mpmc, multi-writer: producer try_send preempted once by the other producer's try_send or the consumer's try_recv",
+  "N=2, 1 op per actor, depth 1, budget 1")
